@@ -137,6 +137,13 @@ let () = run_lines (fun toks ->
      | "s.write" ->
        let (ifp, tail) = threaded (rest 2) (fun ys nn -> Model.primefactor_s isp fuel_loop fuel_loop fuel_loop fuel_rho ys nn) in
        (match Model.write_model ifp fuel_f a.(0) with None -> "NONE" | Some w -> "[" ^ wstring w ^ "]" ^ tail ())
+     (* d.factor k n obs: factor() of an object obtained by k copy constructions (and one assignment when k is odd) from a constructed one *)
+     | "d.factor" ->
+       let k = ZA.to_int (za_of_z a.(0)) in
+       let d0 = Model.dom_make a.(0) in
+       let d = Model.dom_copies (nat_of_int k) d0 in
+       let d = if k land 1 = 1 then Model.dom_assign (Model.dom_copy d0) d else d in
+       sz (Model.factor_d d isp (const a.(2)) a.(1))
      | "fermat" -> sz (Model.fermat_model a.(0)) ^ " 1"
      | "pepin" -> if Model.pepin_model a.(0) then "1" else "0"
      | "erat" -> (match Model.erat_model a.(0) with None -> "NONE" | Some l -> zlist l)
